@@ -1156,6 +1156,12 @@ def _arr_iter(dom, args, kw):
     raise Unsupported("iteration over an opaque array")
 
 
+@model("arr:getflat")
+def _getflat(dom, args, kw):
+    from . import libreal
+    return libreal.getflat(dom, *args)
+
+
 @model("arr:setflat")
 def _setflat(dom, args, kw):
     from . import libreal
